@@ -1,7 +1,7 @@
 """C15 - TCP connection metrics match what happened on the wire.
 
 1. TLC exhaustive: TcpConn.tla with every outcome class (all opener classes x ok/refuse/disallowed target x corrupt
-   chunks x target reset, with clock): the metrics log is Open.Auth?.Probe?.Closed, Probe <=> authentication failed, one
+   chunks x target reset / complete close x client reset, with clock): the metrics log is Open.Auth?.Probe?.Closed, Probe <=> authentication failed, one
    status per outcome class, counters advance with the bytes (MC_TcpConn_C15.cfg).
 2. spec -> code: TLC-simulated behaviours of every outcome class replayed on the real handler with a recording
    TCPConnMetrics; byte counts are measured independently by the harness at its own sockets (ciphertext on the client
@@ -104,6 +104,25 @@ def run(ctx):
             if c["mlog"] and c["mlog"][-1]["s"] == st:
                 ctx.sample({"script": " ".join(c["env"]), "observed": tc.brief(c)})
                 break
+
+    # termination orders that end in a socket error on one direction after the other direction ended in an orderly way
+    # (steered generation): the target closes completely and the client keeps uploading; the client resets mid-stream
+    ac = [b for b in tc.gen(ctx, "Gen_TcpConn_C15AfterClose.cfg", 4000 if q else 20000, seed=ctx.seed + 7) if tc.features(b)["after_close"] >= 1]
+    cr = [b for b in tc.gen(ctx, "Gen_TcpConn_C15CRst.cfg", 1500 if q else 8000, seed=ctx.seed + 8) if tc.features(b)["crst"]]
+    se = tc.select(ac, 24 if q else 200, lambda f: (min(f["after_close"], 3), min(f["crecv"], 1)), rng) + \
+        tc.select(cr, 24 if q else 200, lambda f: (f["tfin"] > 0, f["rst"], min(f["trecv"], 1), min(f["crecv"], 1)), rng)
+    if sum(1 for b in se if tc.features(b)["after_close"] >= 2) < 3 or sum(1 for b in se if tc.features(b)["crst"]) < 5:
+        raise vlib.Inconclusive("steered generation produced too few socket-error behaviours (%d)" % len(se))
+    secases, _, _, sehung = tc.run_family(ctx, "C15_", se, label="c15-socket-errors", timeout_ms=5000, par=8)
+    if sehung:
+        raise vlib.Inconclusive("handlers still running after the script ended: %s" % ctx.notes[-1])
+    tc.mech_pass(ctx, secases, se, label="c15-socket-errors")
+    ctx.cov["distinct_nontrivial"] += len(se)
+    ctx.cov["socket_error_outcomes"] = {}
+    for c in secases:
+        if c["mlog"] and c["mlog"][-1]["m"] == "Closed":
+            k = "%s%s:%s" % ("tclose" if c["tcl"] != "no" else "", "crst" if c["crst"] else "", c["mlog"][-1]["s"])
+            ctx.cov["socket_error_outcomes"][k] = ctx.cov["socket_error_outcomes"].get(k, 0) + 1
 
     # concurrent: n single-connection behaviours (no clock) merged into one, all on one listener at once
     n = 50 if q else 500
